@@ -3,6 +3,7 @@ package store
 import (
 	"fmt"
 	"sync"
+	"time"
 
 	"github.com/feichai0017/NoKV/pb"
 	myraft "github.com/feichai0017/NoKV/raft"
@@ -30,6 +31,15 @@ func newCommandPipeline(applier func(*pb.RaftCmdRequest) (*pb.RaftCmdResponse, e
 		proposals: make(map[uint64]*commandProposal),
 		applier:   applier,
 	}
+}
+
+// proposalIDBase returns the first value of a store's request-id sequence.
+// Every replica applies every entry of the regions it hosts and matches the
+// entry's request id against its own waiting proposals, so ids must be unique
+// across stores and across restarts of one store: the high 16 bits carry the
+// store id, the low 48 bits start at the process start time in microseconds.
+func proposalIDBase(storeID uint64) uint64 {
+	return (storeID&0xFFFF)<<48 | (uint64(time.Now().UnixMicro()) & (1<<48 - 1))
 }
 
 func (cp *commandPipeline) nextProposalID() uint64 {
